@@ -23,7 +23,15 @@ THome == [c \in TConn |-> (CHOOSE x \in Range(Rec[1].conns) : x.c = c).home]
 \* and not deregistered (through whichever node); every live node returns exactly that set once settled
 VARIABLES l, hset
 tvars == <<vars, l, hset>>
-TraceInit == Init /\ l = 2 /\ hset = {}
+\* hset: address -> the weight a query must show (session 6: "the same set of instances (address, health, enabled state and
+\* weight)" also for HTTP instances).  A registration with weight 1 does not give a weight (InstanceUpdateTag): an instance
+\* that is there keeps its own, a new one gets 1.  Heart-beats (hbeat) change nothing a query shows - through whichever node
+\* they come - so HTTP reads (hread) are judged without settling.
+HPut(f, k, v) == [x \in (DOMAIN f) \cup {k} |-> IF x = k THEN v ELSE f[x]]
+HDel(f, k) == [x \in (DOMAIN f) \ {k} |-> f[x]]
+HShown(hv) == {<<x.a, x.w>> : x \in Range(hv)}
+HExpected == {<<a, hset[a]>> : a \in DOMAIN hset}
+TraceInit == Init /\ l = 2 /\ hset = [a \in {} |-> 0]
 IsEvent(e) == l <= Len(Rec) /\ Rec[l].ev = e /\ l' = l + 1
 
 TReg == IsEvent("reg") /\ Register(Rec[l].c, Rec[l].a, Rec[l].at) /\ UNCHANGED hset
@@ -31,8 +39,12 @@ TDereg == IsEvent("dereg") /\ Deregister(Rec[l].c, Rec[l].a) /\ UNCHANGED hset
 TClose == IsEvent("close") /\ Close(Rec[l].c) /\ UNCHANGED hset
 TDie == IsEvent("die") /\ Die(Rec[l].n) /\ UNCHANGED hset
 TStart == IsEvent("start") /\ Start(Rec[l].n) /\ UNCHANGED hset
-THReg == IsEvent("hreg") /\ hset' = hset \cup {Rec[l].a} /\ UNCHANGED vars
-THDereg == IsEvent("hdereg") /\ hset' = hset \ {Rec[l].a} /\ UNCHANGED vars
+THReg == /\ IsEvent("hreg")
+         /\ hset' = HPut(hset, Rec[l].a, IF Rec[l].w = 1 /\ Rec[l].a \in DOMAIN hset THEN hset[Rec[l].a] ELSE Rec[l].w)
+         /\ UNCHANGED vars
+THDereg == IsEvent("hdereg") /\ hset' = HDel(hset, Rec[l].a) /\ UNCHANGED vars
+THBeat == IsEvent("hbeat") /\ Rec[l].a \in DOMAIN hset /\ UNCHANGED <<vars, hset>>
+THRead == IsEvent("hread") /\ HShown(Rec[l].hview) = HExpected /\ UNCHANGED <<vars, hset>>
 
 \* owner of address a in the converged state (0 = nobody)
 OwnerOf(a) == IF \E o \in Node : alive[o] /\ a \in DOMAIN inst[o] /\ inst[o][a].from = 0
@@ -52,7 +64,7 @@ TSettle ==
 TRead ==
     /\ IsEvent("read")
     /\ View(Rec[l].n) = {<<x.a, x.c, x.at>> : x \in Range(Rec[l].view)}
-    /\ Range(Rec[l].hview) = hset
+    /\ HShown(Rec[l].hview) = HExpected
     /\ UNCHANGED <<vars, hset>>
 
 \* an HTTP update (console / open API) of an address that a gRPC connection holds: it is applied by the node responsible for
@@ -67,7 +79,7 @@ THUpd ==
                 inst' = IF keep THEN inst ELSE [inst EXCEPT ![o] = [@ EXCEPT ![a] = [@ EXCEPT !.attr = Rec[l].at]]]
     /\ UNCHANGED <<msgs, cidx, alive, open, ops, hset>>
 
-TraceNext == TReg \/ TDereg \/ TClose \/ TDie \/ TStart \/ THReg \/ THDereg \/ THUpd \/ TSettle \/ TRead
+TraceNext == TReg \/ TDereg \/ TClose \/ TDie \/ TStart \/ THReg \/ THDereg \/ THUpd \/ THBeat \/ THRead \/ TSettle \/ TRead
 TraceSpec == TraceInit /\ [][TraceNext]_tvars
 
 TraceAccepted ==
